@@ -61,7 +61,14 @@ class LGen(solvecheck.Gen):
                 # the foreach is expanded, with every comparison operator, an else-if and an else branch
                 nr = [i for i, f in enumerate(fs) if not f["rand"] and not f["enums"]]
 
+                # non-random fixed lists at least as long as this one: their elements can be read at the index
+                cfgs = [j for j, l2 in enumerate(ls) if j != li and not l2["rand"] and not l2["randsz"]
+                        and not ls[li]["randsz"] and len(l2["init"]) >= len(ls[li]["init"])]
+
                 def cond():
+                    if cfgs and r.random() < 0.4:
+                        # the element of a non-random list at the current index decides the branch
+                        return B(r.choice(["eq", "ne", "ge", "lt"]), E(r.choice(cfgs), {"k": "idx"}), I(r.randint(0, 3)))
                     rhs = F(r.choice(nr)) if nr and r.random() < 0.4 else I(r.randint(0, 3))
                     lhs = {"k": "idx"} if r.random() < 0.8 else B("add", {"k": "idx"}, I(1))
                     return B(r.choice(["ge", "le", "gt", "lt", "eq", "ne"]), lhs, rhs)
@@ -470,6 +477,61 @@ def run_witnesses(ck):
             ck.corr_fail(f["what"], f["case"], f["model"], f["impl"])
 
 
+def object_list_facade(ck, n):
+    """lists of objects as plain containers: after any history of append / extend / clear the list holds exactly the
+    objects a Python list would hold — same length, same objects by identity through indexing and iteration"""
+    import solvelib as S
+    S.install()
+    vsc = S.vsc
+
+    @vsc.randobj
+    class Elem(object):
+        def __init__(self):
+            self.x = vsc.rand_bit_t(4)
+
+    @vsc.randobj
+    class Host(object):
+        def __init__(self, rand):
+            self.objs = (vsc.rand_list_t if rand else vsc.list_t)(Elem())
+    r = random.Random("C04/objlist/%d" % ck.seed)
+    for i in range(n):
+        with common.quiet():
+            h = Host(r.random() < 0.6)
+        ref, hist = [], []
+        for _ in range(r.randint(2, 7)):
+            c = r.random()
+            if c < 0.55:
+                e = Elem(); h.objs.append(e); ref.append(e); hist.append("append")
+            elif c < 0.75:
+                es = [Elem() for _ in range(r.randint(1, 2))]; h.objs.extend(es); ref.extend(es); hist.append("extend%d" % len(es))
+            elif c < 0.9:
+                h.objs.clear(); del ref[:]; hist.append("clear")
+            else:
+                try:
+                    with common.quiet():
+                        h.randomize()
+                    hist.append("randomize")
+                except Exception as ex:
+                    hist.append("randomize!" + type(ex).__name__)
+            ck.count("object_list_ops")
+            try:
+                got_len = len(h.objs)
+                by_idx = [h.objs[k] for k in range(got_len)]
+                by_it = list(h.objs)
+            except Exception as ex:
+                ck.oracle_fail("object-list-facade-raises:" + type(ex).__name__, {"object_list_history": list(hist)}, str(ex)[:200],
+                               "len(), indexing and iteration work after every edit")
+                break
+            ok = got_len == len(ref) and len(by_idx) == len(ref) and all(a is b for a, b in zip(by_idx, ref)) \
+                and len(by_it) == len(ref) and all(a is b for a, b in zip(by_it, ref))
+            if not ok:
+                ck.oracle_fail("edit-does-not-act-on-exposed-list:objects", {"object_list_history": list(hist)},
+                               {"len": got_len, "indexing_matches": [a is b for a, b in zip(by_idx, ref)],
+                                "iteration_matches": [a is b for a, b in zip(by_it, ref)], "expected_len": len(ref)},
+                               "the list holds exactly the objects appended since the last clear, in order")
+                break
+
+
 def run(ck, n, randsz_p, extra=None):
     jobs = min(16, max(1, n // 20)) if extra is None else 1
     per = (n + jobs - 1) // jobs if extra is None else 0
@@ -501,6 +563,7 @@ def main():
         run(ck, 0, 0.0, extra=[case])
     else:
         run_witnesses(ck)
+        object_list_facade(ck, 400 if tier == "thorough" else 40)
         n = 8000 if tier == "thorough" else 240
         run(ck, n, float(os.environ.get("C04_RANDSZ", "0.25")))
     # failing-input search: model and implementation disagree but no run contradicts the property — re-run the
